@@ -75,7 +75,7 @@ struct Lineage {
 
 pub fn run(p: &Params) -> Report {
     let mut rep = Report::new("C19");
-    rep.rule = "cases = faucet applications: on each of the 9 network ids a history of up to 30 blocks in which faucet transactions of many shapes (0-255 outputs, all denominations, data, with and without authorised inputs, the grandfathered mainnet transaction on every network) are applied and then replayed in the same batch, in a later batch of the same block, 1-30 blocks later, with a different sigs field, inside a batch among other transactions, and after a restart through from_block (copied store). Oracle: on mainnet only the grandfathered hash may be accepted; elsewhere each hash_nosigs is accepted at most once per lineage. Ordinary payments name an accepted faucet's duplicate marker among their inputs before the replay. Non-trivial = every replay attempt; distinct by (network, hash, replay point)".into();
+    rep.rule = "cases = faucet applications: on each of the 9 network ids a history of up to 30 blocks in which faucet transactions of many shapes (0-255 outputs, all denominations, data, with and without authorised inputs, the grandfathered mainnet transaction on every network) are applied and then replayed in the same batch, in a later batch of the same block, 1-30 blocks later, with a different sigs field, inside a batch among other transactions, in one batch with the grandfathered transaction, and after a restart through from_block (copied store). Oracle: on mainnet only the grandfathered hash may be accepted; elsewhere each hash_nosigs is accepted at most once per lineage. Ordinary payments name an accepted faucet's duplicate marker among their inputs before the replay. Non-trivial = every replay attempt; distinct by (network, hash, replay point)".into();
     let total = p.n(540, 12000);
     let mine = p.share(total);
     let mut rng = Rng::new(p.shard_seed() ^ 0xC19);
@@ -177,6 +177,17 @@ pub fn run(p: &Params) -> Report {
             }
             if w.dead {
                 break;
+            }
+            // a fresh faucet travelling in one batch with the grandfathered transaction (either order): the exemption is for
+            // that one transaction, not for its company
+            if r.chance(1, if net == NetID::Mainnet { 2 } else { 8 }) {
+                let f = faucet_shape(&mut w, &mut r);
+                let batch = if r.chance(1, 2) { vec![grandfathered_tx(), f.clone()] } else { vec![f.clone(), grandfathered_tx()] };
+                pool.push(f);
+                attempt(&mut w, &mut lin, &mut rep, batch, "same-batch-as-the-grandfathered-transaction", case_seed);
+                if w.dead {
+                    break;
+                }
             }
             // an ordinary payment that names an accepted faucet's duplicate marker among its inputs (the marker is a
             // zero-valued pseudo-coin under the all-zero covenant hash), then the faucet again
